@@ -2,42 +2,59 @@
 // before returning, and all of them have finished once the task set's wait() returns; including
 // recursive divide-and-conquer use.
 //
-// Real code: dispenso::parallel_invoke (parallel_invoke.h, unmodified; both overloads, arities 1..6,
-// functors passed as rvalue lambdas, lvalue lambdas, lvalue / const-lvalue functor objects).
-// parallel_invoke takes a concrete dispenso::ConcurrentTaskSet& (no template overload), so the
-// harness supplies that class through shim/dispenso/task_set.h (model scheduler, see there).
+// Real code: dispenso::parallel_invoke (parallel_invoke.h, both overloads) on the REAL
+// dispenso::ConcurrentTaskSet -- schedule(F&&, skipRecheck, factor) with both inline gates,
+// schedulePlaced (TaskCost::kHeavy route), packageTask and its wrapper closure, wait(), the
+// destructor, TaskSetBase constructor (task_set.h, detail/task_set_impl.h, task_set.cpp,
+// detail/per_thread_info.{h,cpp}).  Environment: the contract ThreadPool of
+// harness/C04/shim/dispenso/thread_pool.h (ForceQueuingTag queues unless the pool has 0 threads;
+// tryExecuteNext runs one queued task, FIFO); pool workers are virtual: the harness runs worker
+// steps at symbolic points between API calls and -- VF_MIDCALL -- inside the first functor, i.e. in
+// the middle of a parallel_invoke call (task-granularity interleaving).
 //
-// VF_SCEN 0: one call of symbolic arity 1..6.
-// VF_SCEN 1: binary divide-and-conquer recursion of depth VF_DEPTH (2: 7 nodes, 3: 15 nodes); every
-//            inner node forks its two children with parallel_invoke, one wait() at the top.
+// VF_SCEN 0: one call of arity 2, 3 or 4 (symbolic selector over literal scenarios; rvalue lambdas,
+//            lvalue lambdas, lvalue / const functor objects).
+// VF_SCEN 1: depth-2 divide and conquer: parallel_invoke(ts, L, R) where L and R each call
+//            parallel_invoke(ts, leaf, leaf) on the same task set; one wait() at the top.  Every node
+//            is a distinct captureless lambda type (no type-erased recursion cycle).
+// The configuration space is explored as a tree of literal scenarios under a symbolic selector (the
+// pool / task-set state then stays concrete for the symbolic executor, which is what keeps the real
+// wait() loops and the pool's virtual task dispatch tractable): tasks of the set already in flight
+// during the call in {0,1,2,3,12} (drives the inline gate of schedule / schedulePlaced across its
+// threshold, also in the middle of a call), inline depth of the caller in {0, kMaxInlineDepth}
+// (canInlineSchedule true/false), 0..2 virtual-worker steps before wait(), worker step inside the
+// first functor yes/no (VF_MIDCALL instances).  Compile time per instance: pool size, TaskCost.
 #include <dispenso/parallel_invoke.h>
-#include "vf.h"
+#include "ts_kit16.h"
 
 #ifndef VF_SCEN
 #define VF_SCEN 0
 #endif
-#ifndef VF_NPOOL
-#define VF_NPOOL 2
+#ifndef VF_POOL_N
+#define VF_POOL_N 1
 #endif
-#ifndef VF_DEPTH
-#define VF_DEPTH 2
+#ifndef VF_COST
+#define VF_COST 1  // 1 TaskCost::kHeavy (default of ConcurrentTaskSet), 0 kLightweight
+#endif
+#ifndef VF_MIDCALL
+#define VF_MIDCALL 0
 #endif
 
 using dispenso::ConcurrentTaskSet;
+using dispenso::ThreadPool;
 
+constexpr int kMaxF = 6;
+static uint8_t g_cnt[kMaxF];   // invocations of functor / node i
+static uint8_t g_who[kMaxF];   // context in which functor i ran (Ctx)
+static bool g_inCall[kMaxF];   // functor i ran while the top-level parallel_invoke call was in progress
+static bool g_callActive;
+static ThreadPool* g_pool;
 static ConcurrentTaskSet* g_ts;
-static bool g_inCall;  // the top-level parallel_invoke call is in progress
-
-#if VF_SCEN == 0
-constexpr int kMaxArity = 6;
-static uint8_t g_cnt[kMaxArity];     // invocations of functor i
-static bool g_direct[kMaxArity];     // functor i was invoked by parallel_invoke itself (on the caller, during the call), not through the task set
 
 static void hit(int i) {
   ++g_cnt[i];
-  if (g_inCall && g_ts->depth == 0) {
-    g_direct[i] = true;
-  }
+  g_who[i] = g_ctx;
+  g_inCall[i] = g_callActive;
 }
 
 struct Functor {  // functor object, passed as lvalue / const lvalue (copied into the task set)
@@ -47,110 +64,196 @@ struct Functor {  // functor object, passed as lvalue / const lvalue (copied int
   }
 };
 
-extern "C" void vf_main() {
-  uint32_t N = vf_range_u32(0, VF_NPOOL);
-  uint32_t a = vf_range_u32(1, kMaxArity);
-  ConcurrentTaskSet ts(static_cast<ssize_t>(N));
-  g_ts = &ts;
-  for (int i = 0; i < kMaxArity; ++i) {
+static bool g_mid;  // scenario: a pool worker makes one step while the caller is inside parallel_invoke
+static void midCall() {
+  if (g_mid && g_ctx == kCaller) {
+    workerStep(*g_pool);
+  }
+}
+
+struct Pre {
+  ssize_t inflight;
+  void apply(ConcurrentTaskSet& ts, int nInflight, int depth) {
+    // other tasks of this set are in flight (scheduled by other threads, not finished yet)
+    inflight = nInflight;
+    ts.outstandingTaskCount_.fetch_add(inflight, std::memory_order_relaxed);
+    dispenso::detail::PerPoolPerThreadInfo::inlineDepth() = depth;
+  }
+  void release(ConcurrentTaskSet& ts) {
+    // ... they finish; the caller is back at its outermost frame
+    ts.outstandingTaskCount_.fetch_sub(inflight, std::memory_order_relaxed);
+    dispenso::detail::PerPoolPerThreadInfo::inlineDepth() = 0;
+  }
+};
+
+static void reset() {
+  for (int i = 0; i < kMaxF; ++i) {
     g_cnt[i] = 0;
-    g_direct[i] = false;
+    g_who[i] = 0xff;
+    g_inCall[i] = false;
   }
-  auto l0 = [] { hit(0); };
-  auto l1 = [] { hit(1); };
-  Functor o2{2};
-  const Functor o3{3};
-  auto l4 = [] { hit(4); };
-  int five = 5;
-  auto l5 = [five] { hit(five); };
+  g_ctx = kCaller;
+}
 
-  g_inCall = true;
-  switch (a) {
-    case 1:
-      dispenso::parallel_invoke(ts, l0);
-      break;
-    case 2:
-      dispenso::parallel_invoke(ts, [] { hit(0); }, l1);
-      break;
-    case 3:
-      dispenso::parallel_invoke(ts, l0, std::move(l1), o2);
-      break;
-    case 4:
-      dispenso::parallel_invoke(ts, l0, [] { hit(1); }, o2, o3);
-      break;
-    case 5:
-      dispenso::parallel_invoke(ts, o3 /*runs as #3*/, l0, l1, o2, std::move(l4));
-      break;
-    default:
-      dispenso::parallel_invoke(ts, l0, l1, o2, o3, l4, l5);
-      break;
-  }
-  g_inCall = false;
-
-  int last = (int)a - 1;
-  // arity 5 passes o3 first: functor ids are {3,0,1,2,4}; the last argument is id 4 == a-1 as well
-  for (int i = 0; i < kMaxArity; ++i) {
+static void finish(ThreadPool& pool, ConcurrentTaskSet& ts, int nf, int steps) {
+  for (int i = 0; i < kMaxF; ++i) {
     vf_check(g_cnt[i] <= 1, "no functor has run more than once when parallel_invoke returns");
   }
-  vf_check(g_cnt[last] == 1, "the last functor has run when parallel_invoke returns");
-  vf_check(g_direct[last], "the last functor is invoked directly on the calling thread, not handed to the task set");
-  vf_check(ts.scheduled == (int)a - 1, "every functor but the last is handed to the task set exactly once");
-
+  for (int s = 0; s < steps; ++s) {
+    workerStep(pool);
+  }
+  g_ctx = kWaiter;
   ts.wait();
-  for (int i = 0; i < kMaxArity; ++i) {
-    if (i < (int)a) {
-      vf_check(g_cnt[i] == 1, "every functor has run exactly once after wait()");
+  g_ctx = kCaller;
+  vf_check(ts.outstandingTaskCount_.load() == 0, "no task of the set is outstanding after wait()");
+  for (int i = 0; i < kMaxF; ++i) {
+    vf_check(i >= nf || g_cnt[i] == 1, "every functor has run exactly once after wait()");
+  }
+  for (int i = 0; i < kMaxF; ++i) {
+    vf_check(i < nf || g_cnt[i] == 0, "harness: no functor outside the call ran");
+  }
+}
+
+// ---- scenario tree (see harness/C15/foreach.cpp) -------------------------------------------------
+constexpr int kInflight[] = {0, 1, 2, 3, 12};
+constexpr int kDepth[] = {0, dispenso::detail::kMaxInlineDepth};
+constexpr int kNumMid = VF_MIDCALL ? 2 : 1;
+
+template <int Lo, int Hi, template <int> class S>
+struct Tree {
+  VF_NOINLINE static void go(uint32_t sel) {
+    constexpr int Mid = Lo + (Hi - Lo) / 2;
+    if (sel <= (uint32_t)Mid) {
+      Tree<Lo, Mid, S>::go(sel);
     } else {
-      vf_check(g_cnt[i] == 0, "functors that were not passed never run");
+      Tree<Mid + 1, Hi, S>::go(sel);
     }
   }
-  vf_check(ts.executed == ts.scheduled, "every closure handed to the task set ran exactly once");
+};
+template <int K, template <int> class S>
+struct Tree<K, K, S> {
+  VF_NOINLINE static void go(uint32_t) {
+    S<K>::run();
+  }
+};
+
+#if VF_SCEN == 0
+template <int A>
+static void arity(int nInflight, int depth, int steps, bool mid) {
+  ThreadPool pool(VF_POOL_N);
+  g_pool = &pool;
+  g_mid = mid;
+  {
+    ConcurrentTaskSet ts(pool, VF_COST ? dispenso::TaskCost::kHeavy : dispenso::TaskCost::kLightweight);
+    g_ts = &ts;
+    reset();
+    Pre pre;
+    pre.apply(ts, nInflight, depth);
+    auto l0 = [] {
+      midCall();
+      hit(0);
+    };
+    auto l1 = [] { hit(1); };
+    Functor o2{2};
+    const Functor o3{3};
+    g_callActive = true;
+    if (A == 2) {
+      dispenso::parallel_invoke(ts, l0, [] { hit(1); });
+    } else if (A == 3) {
+      dispenso::parallel_invoke(ts, l0, std::move(l1), o2);
+    } else {
+      dispenso::parallel_invoke(ts, std::move(l0), l1, o2, o3);
+    }
+    g_callActive = false;
+    pre.release(ts);
+    vf_check(g_cnt[A - 1] == 1, "the last functor has run when parallel_invoke returns");
+    vf_check(g_who[A - 1] == kCaller && g_inCall[A - 1], "the last functor ran on the calling thread, inside the call");
+    if (g_cnt[0] == 0) {
+      vf_reach("a functor was still queued when parallel_invoke returned");
+    }
+    finish(pool, ts, A, steps);
+    g_ts = nullptr;
+  }
+  g_pool = nullptr;
 }
 
-#else  // ---------------------------------------------------------------- recursive fork-join
-
-constexpr int kNodes = (1 << (VF_DEPTH + 1)) - 1;
-static uint8_t g_visit[kNodes];   // visits of tree node i (heap numbering: children 2i+1, 2i+2)
-
-// No run-time recursion: one instantiation per level, so the symbolic execution has no recursive
-// call cycle through the type-erased task closures.
-template <int D>
-struct Rec {
-  static void go(ConcurrentTaskSet& ts, int node) {
-    ++g_visit[node];
+constexpr int kTotal = 3 * 5 * 2 * 3 * kNumMid;
+template <int K>
+struct Scen {
+  static void run() {
+    constexpr int A = 2 + K % 3;
+    constexpr int k1 = K / 3;
+    constexpr int nInflight = kInflight[k1 % 5];
+    constexpr int k2 = k1 / 5;
+    constexpr int depth = kDepth[k2 % 2];
+    constexpr int k3 = k2 / 2;
+    constexpr int steps = k3 % 3;
+    constexpr bool mid = (k3 / 3) == 1;
+    arity<A>(nInflight, depth, steps, mid);
+  }
+};
+#else
+// nodes: 0 = L, 1 = R, 2 = LL, 3 = LR, 4 = RL, 5 = RR
+static void recursive(int nInflight, int depth, int steps, bool mid) {
+  ThreadPool pool(VF_POOL_N);
+  g_pool = &pool;
+  g_mid = mid;
+  {
+    ConcurrentTaskSet ts(pool, VF_COST ? dispenso::TaskCost::kHeavy : dispenso::TaskCost::kLightweight);
+    g_ts = &ts;
+    reset();
+    Pre pre;
+    pre.apply(ts, nInflight, depth);
+    g_callActive = true;
     dispenso::parallel_invoke(
         ts,
-        [&ts, node] { Rec<D - 1>::go(ts, 2 * node + 1); },
-        [&ts, node] { Rec<D - 1>::go(ts, 2 * node + 2); });
+        [] {
+          hit(0);
+          dispenso::parallel_invoke(
+              *g_ts,
+              [] {
+                midCall();
+                hit(2);
+              },
+              [] { hit(3); });
+          vf_check(g_cnt[3] == 1, "inner call (left): the last functor has run when parallel_invoke returns");
+        },
+        [] {
+          hit(1);
+          dispenso::parallel_invoke(
+              *g_ts, [] { hit(4); }, [] { hit(5); });
+          vf_check(g_cnt[5] == 1, "inner call (right): the last functor has run when parallel_invoke returns");
+        });
+    g_callActive = false;
+    pre.release(ts);
+    vf_check(g_cnt[1] == 1 && g_cnt[5] == 1, "the last functor (and its own last functor) has run when parallel_invoke returns");
+    vf_check(g_who[1] == kCaller && g_who[5] == kCaller && g_inCall[5],
+             "the last functor of the last functor ran on the calling thread, inside the call");
+    if (g_cnt[0] == 0) {
+      vf_reach("the left subtree was still queued when the top-level parallel_invoke returned");
+    }
+    finish(pool, ts, 6, steps);
+    g_ts = nullptr;
+  }
+  g_pool = nullptr;
+}
+
+constexpr int kTotal = 5 * 2 * 3 * kNumMid;
+template <int K>
+struct Scen {
+  static void run() {
+    constexpr int nInflight = kInflight[K % 5];
+    constexpr int k2 = K / 5;
+    constexpr int depth = kDepth[k2 % 2];
+    constexpr int k3 = k2 / 2;
+    constexpr int steps = k3 % 3;
+    constexpr bool mid = (k3 / 3) == 1;
+    recursive(nInflight, depth, steps, mid);
   }
 };
-template <>
-struct Rec<0> {
-  static void go(ConcurrentTaskSet&, int node) {
-    ++g_visit[node];
-  }
-};
+#endif
 
 extern "C" void vf_main() {
-  uint32_t N = vf_range_u32(0, VF_NPOOL);
-  ConcurrentTaskSet ts(static_cast<ssize_t>(N));
-  g_ts = &ts;
-  for (int i = 0; i < kNodes; ++i) {
-    g_visit[i] = 0;
-  }
-  Rec<VF_DEPTH>::go(ts, 0);
-  // the right spine (last functor at every level) ran on the caller before the call returned
-  for (int i = 0; i < kNodes; i = 2 * i + 2) {
-    vf_check(g_visit[i] == 1, "recursion: the last functor of every level on the right spine has run when the top call returns");
-  }
-  for (int i = 0; i < kNodes; ++i) {
-    vf_check(g_visit[i] <= 1, "recursion: no node visited twice before wait()");
-  }
-  ts.wait();
-  for (int i = 0; i < kNodes; ++i) {
-    vf_check(g_visit[i] == 1, "recursion: every node of the fork-join tree visited exactly once after wait()");
-  }
-  vf_check(ts.executed == ts.scheduled, "every closure handed to the task set ran exactly once");
-  vf_check(ts.scheduled == (kNodes - 1) / 2, "recursion: one closure handed to the task set per inner node");
+  uint32_t sel = vf_range_u32(0, kTotal - 1);
+  Tree<0, kTotal - 1, Scen>::go(sel);
 }
-#endif
